@@ -9,12 +9,12 @@ PROPERTY = "C08"
 LEVEL = "fault_enumeration"
 RULE = ("exception codes 0..255 x {read, write, write-multi} x {udp-rtu, tcp} x keep-alive x preceded by j in 0..R "
         "dropped transmissions x exception delivered promptly or half a timeout late x entry through the protocol-level "
-        "request and through read_sensor/write_setting('modbus-N'); as the second request on a kept-alive object (with and without "
+        "request, through read_sensor/write_setting('modbus-N') and through command objects built for another unit address; two Modbus/TCP objects with overlapping requests; as the second request on a kept-alive object (with and without "
         "yielding in between); after lone fragments of every length; Modbus/TCP exception frames with a wrong MBAP length field; complete enumeration of the codes; distinct = distinct "
         "(transport, keep-alive, command kind, code, j, delay, entry) tuples")
 ASSUMPTIONS = ["reason texts are the standard Modbus exception names (table copied from the specification into refcodec)",
                "virtual clock: 'at once' means zero virtual time between delivery of the exception frame and the return"]
-MUST = ["tcp_exception_with_wrong_mbap_length", "second_request_rejected", "rejected_after_lone_fragment", "rejected_udp", "rejected_tcp", "after_drops", "delayed_exception", "unknown_code", "public_entry"]
+MUST = ["two_tcp_objects_overlapping", "command_for_another_unit", "tcp_exception_with_wrong_mbap_length", "second_request_rejected", "rejected_after_lone_fragment", "rejected_udp", "rejected_tcp", "after_drops", "delayed_exception", "unknown_code", "public_entry"]
 EXHAUSTIVE = {"quick": True, "thorough": True}
 EPS = 1e-6
 
@@ -23,6 +23,8 @@ def scenario(transport, ka, T, R, kind, code, j, delay, entry):
     framing = "rtu" if transport == "udp" else "tcp"
     if entry == "public":
         step = ["rsensor", 400] if kind == "read" else ["wsetting", 400, -2]
+    elif entry == "unit":      # the command object was built for unit 0x7F / 0x11, the transport object for the inverter's default address
+        step = ["unitcmd", kind, 0x7F if code % 2 else 0x11, 400, {"read": 3, "write": -2, "multi": "00010002fffe"}[kind]]
     else:
         step = {"read": ["read", 400, 3], "write": ["write", 400, -2], "multi": ["multi", 400, "00010002fffe"]}[kind]
     return {"transport": transport, "framing": framing, "keep_alive": ka, "T": T, "R": R, "code": code, "j": j,
@@ -103,6 +105,8 @@ def check_run(sc, run, part: Part):
             part.count("unknown_code")
         if sc["entry"] == "public":
             part.count("public_entry")
+        if sc["entry"] == "unit":
+            part.count("command_for_another_unit")
         if sc.get("second"):
             part.count("second_request_rejected")
         if sc.get("frag_first"):
@@ -126,6 +130,49 @@ def run_case(sc, part):
     return vs
 
 
+def two_objects_part(part):
+    """two Modbus/TCP inverter objects whose requests overlap in time; both inverters answer with an exception frame (after a latency):
+    each object must be rejected the moment ITS frame arrives"""
+    import asyncio
+    from .. import env, sims
+    g = env.goodwe()
+    for code in (1, 2, 3, 4, 6, 11, 200):
+        for ka in (False, True):
+            for da, db, off in ((0.3, 0.1, 0.05), (0.2, 0.4, 0.0), (0.5, 0.5, 0.25), (0.1, 0.3, 0.05)):
+                sa, sb = sims.ModbusSim("invA"), sims.ModbusSim("invB")
+                sa.delay, sb.delay = da, db
+                sa.exc_map[(3, 700)] = code
+                sb.exc_map[(3, 701)] = 2
+                out = {}
+
+                async def flow(loop):
+                    A, B = g.ET("invA", 502, 0, 1, 1), g.ET("invB", 502, 0, 1, 1)
+                    A.set_keep_alive(ka)
+                    B.set_keep_alive(ka)
+
+                    async def one(inv, name, reg, start):
+                        await asyncio.sleep(start)
+                        t0 = loop.time()
+                        try:
+                            await inv._read_from_socket(inv._read_command(reg, 2))
+                            out[name] = ("ok", "", loop.time() - t0)
+                        except Exception as e:      # noqa
+                            out[name] = (type(e).__name__, getattr(e, "message", ""), loop.time() - t0)
+                    await asyncio.gather(one(A, "A", 700, 0.0), one(B, "B", 701, off))
+
+                run = engine.run_custom({("invA", 502): sa, ("invB", 502): sb}, flow)
+                part.evaluations += 1
+                part.count("two_tcp_objects_overlapping")
+                part.see(f"two-objects|{code}|{ka}|{da}|{db}|{off}")
+                for name, want_msg, d in (("A", rc.reason(code), da), ("B", rc.reason(2), db)):
+                    o = out.get(name)
+                    if run.stop or not o or o[0] != "RequestRejectedException" or o[1] != want_msg or abs(o[2] - d) > EPS:
+                        part.violate("C08/tcp/not-rejected" if not o or o[0] != "RequestRejectedException" else "C08/tcp/not-immediate",
+                                     f"two Modbus/TCP inverter objects with overlapping requests (keep_alive={ka}): object {name}'s inverter answered with "
+                                     f"exception {want_msg!r} {d} s after the request; the call ended {o} {run.stop or ''}",
+                                     {"two_objects": True})
+
+
 def plan(tier, seed):
     specs = []
     for transport in ("udp", "tcp"):
@@ -139,6 +186,8 @@ def plan(tier, seed):
 def run_shard(spec):
     part = Part()
     R = spec["R"]
+    if spec["transport"] == "tcp" and spec["kind"] == "read" and spec["ka"]:
+        two_objects_part(part)
     for T in spec["Ts"]:
         for code in range(256):
             for j in range(R + 1):
@@ -147,6 +196,8 @@ def run_shard(spec):
             if spec["kind"] != "multi":
                 for j in (0, R):
                     run_case(scenario(spec["transport"], spec["ka"], T, R, spec["kind"], code, j, 0.0, "public"), part)
+            for j in (0, 1):
+                run_case(scenario(spec["transport"], spec["ka"], T, R, spec["kind"], code, j, 0.0, "unit"), part)
             if code % 16 == 2 or code in (1, 3, 4, 6):
                 for gap, delay in ((0.5 * T, 0.8 * T), (0.25 * T, 0.9 * T), (None, 0.5 * T), (None, 0.0)):
                     run_case(scenario_second(spec["transport"], spec["ka"], T, R, spec["kind"], code, gap, delay), part)
@@ -163,5 +214,8 @@ def run_shard(spec):
 
 def replay(case):
     part = Part()
+    if case.get("two_objects"):
+        two_objects_part(part)
+        return [{"key": v["key"], "msg": v["msg"]} for v in part.violations]
     vs = run_case(case["scenario"], part)
     return [{"key": k, "msg": m} for k, m in vs]
